@@ -16,7 +16,7 @@ from pathlib import Path
 
 ID = 'C17'
 LEVEL = 'exploration'
-RULE = ('histories of 3-12 flights on ONE builder instance mixing flyable missions with every '
+RULE = ('histories of 3-20 flights on ONE builder instance mixing flyable missions with every '
         'failure kind {unknown airport, airport above cruise level, out-of-envelope state, '
         'route too short, missing weather file, point outside the weather domain, '
         'non-converging mass iteration} over option sets {mass iteration on/off with several '
@@ -25,7 +25,7 @@ RULE = ('histories of 3-12 flights on ONE builder instance mixing flyable missio
         'metadata array_equal, or same exception type and message); rejected missions must '
         'raise their original reason (never AttributeError/KeyError/TypeError/NameError/'
         'AssertionError), no ctx attribute may survive a call, and |trip-fuel residual| < '
-        'tolerance for every trajectory returned with mass iteration; class = (position in '
+        'tolerance for every trajectory returned with mass iteration; 40 % of the histories fly several performance-model objects on the one builder (resident ones and ones loaded for a single flight and dropped, re-loaded until a new model lands on a dropped model\'s address); class = (position in '
         'history, previous outcome, this outcome kind, options)')
 ASSUMPTIONS = [
     'only the legacy builder is concrete in this repository',
@@ -58,6 +58,7 @@ def required(tier):
           'after:failure->ok', 'after:ok->ok', 'after:failure->failure', 'weather:on',
           'mass-iteration:converged', 'mass-iteration:first-pass-residual-negative',
           'table:low-ceiling-15k', 'table:thirsty-climb', 'starting-mass:given', 'identical-to-fresh-builder',
+          'history:several-models-on-one-builder', 'table:transient-variant',
           'same-exception-as-fresh-builder']
     return {'classes': cl, 'evaluations': 300}
 
@@ -195,7 +196,41 @@ def run_shard(spec, rec):
             prev = None
             log = []
             try:
-                for step in range(rng.randint(3, 5) if use_weather else rng.randint(3, 12)):
+                multi_model = (not use_weather) and rng.random() < 0.4
+                case_pm, case_pm_name = pm, pm_name
+                dropped_ids = set()
+                preloaded = None
+
+                def load_variant():
+                    vd = fg.variant_model(rng, base)
+                    keep_alive = []
+                    for _ in range(40):       # try to land on a dropped model's address
+                        cand = PerformanceModel.from_data(vd)
+                        if not dropped_ids or id(cand) in dropped_ids:
+                            break
+                        keep_alive.append(cand)
+                    return cand
+                for step in range(rng.randint(3, 5) if use_weather else
+                                  rng.randint(10, 20) if multi_model else rng.randint(3, 12)):
+                    pm, pm_name = case_pm, case_pm_name
+                    transient = False
+                    if multi_model:
+                        # one long-lived builder, several model objects over time: the case's
+                        # model, another resident model, or a model loaded for this flight
+                        # only and dropped afterwards (its address may be recycled)
+                        r_ = rng.random()
+                        if r_ < 0.75:
+                            pm = preloaded if preloaded is not None else load_variant()
+                            preloaded = None
+                            pm_name, transient = 'transient-variant', True
+                            if id(pm) in dropped_ids:
+                                rec.count('model_address_reused')
+                                rec.cls('history:model-at-recycled-address')
+                        elif r_ < 0.9:
+                            pm_name = rng.choice(sorted(pms))
+                            pm = pms[pm_name]
+                        rec.cls('history:several-models-on-one-builder')
+                    opts['table'] = pm_name
                     kind, m, sm = gen_call(rng, use_weather)
                     got = outcome(veteran, m, sm, pm)
                     first_res = residuals[0] if residuals else None
@@ -282,7 +317,14 @@ def run_shard(spec, rec):
                         rec.cls(f'after:{prev}->{this}')
                     prev = this
                     log.append((kind, m.origin, m.destination, this if got[0] == 'ok'
-                                else type(got[1]).__name__))
+                                else type(got[1]).__name__, pm_name))
+                    if transient:
+                        got = ref = t = e = er = None      # nothing else keeps the model alive
+                        dropped_ids.add(id(pm))
+                        pm = case_pm
+                        # the next model is loaded right after this one was dropped (that is
+                        # when CPython hands the same address out again)
+                        preloaded = load_variant()
                 if k < 2:
                     rec.sample({'options': opts, 'history': log})
             except Mismatch as mm:
